@@ -272,8 +272,9 @@ def main():
     for ji, job in enumerate(jobs):
         exe = bins[(job['tu'], job['kind'])]
         elapsed = time.time() - t_start
-        # the rest of the budget is shared equally among the jobs still to run (what a job leaves unused rolls over)
-        remaining = max(5.0, (budget - elapsed) / max(1, len(jobs) - ji))
+        # the rest of the budget is shared among the jobs still to run (what a job leaves unused rolls over)
+        left = budget - elapsed
+        remaining = max(5.0, left / max(1, len(jobs) - ji), 0.5 * left)  # at least an equal share, at most half of what is left
         outdir = os.path.join(BUILD, pid, f'out{ji}')
         os.makedirs(outdir, exist_ok=True)
         if job['kind'] == 'vrt':
